@@ -6,6 +6,7 @@ import (
 	"go/token"
 	"go/types"
 	"math/big"
+	"regexp"
 	"strconv"
 	"strings"
 
@@ -896,6 +897,7 @@ func (vc *VC) specCall(env *Env, x *SCall) (Term, types.Type) {
 	}
 	// spec / ghost functions
 	if sf := vc.eng.ss.SpecFuncs[id.Name]; sf != nil {
+		vc.assertAxiomsFor(sf.Name)
 		return vc.applySpecFunc(env, sf, x.Args)
 	}
 	// conversion by type name
@@ -1416,4 +1418,39 @@ func (vc *VC) ghostWF(st *State, name string, sort Sort, ats []Term, rt types.Ty
 		return
 	}
 	vc.q.Raw(fmt.Sprintf("(assert (forall (%s) (! %s :pattern (%s))))", strings.Join(bs, " "), body.S, cur.S))
+}
+
+// assertAxiomsFor states (once per VC) every `axiom` clause that mentions the spec function: axioms are the
+// definitional equations of uninterpreted spec functions (assumptions, listed in the evidence).
+func (vc *VC) assertAxiomsFor(name string) {
+	re := regexp.MustCompile(`\b` + regexp.QuoteMeta(name) + `\b`)
+	for _, ax := range vc.eng.ss.Axioms {
+		if vc.assumedFacts["axiom:"+ax.Label+ax.Text] || !re.MatchString(ax.Text) || ax.Expr == nil {
+			continue
+		}
+		vc.assumedFacts["axiom:"+ax.Label+ax.Text] = true
+		pkg := vc.eng.typesPkg(vc.eng.ss.AxiomPkg[ax])
+		if pkg == nil {
+			continue
+		}
+		st := &State{reach: True, mem: map[string]Term{}, alloc: IntLit(1)}
+		if vc.top != nil && vc.top.entry != nil {
+			st = vc.top.entry
+		}
+		env := &Env{vc: vc, fr: nil, st: st, old: st, names: map[string]Bound{}, nq: new(int), pkg: pkg}
+		func() {
+			defer func() {
+				if r := recover(); r != nil {
+					if se, ok := r.(specErr); ok {
+						vc.bindError(ax, string(se))
+						return
+					}
+					panic(r)
+				}
+			}()
+			g, _ := vc.specExpr(env, ax.Expr)
+			vc.q.Assert(g)
+			vc.assumed["axiom "+ax.Label+": "+ax.Text] = true
+		}()
+	}
 }
